@@ -24,7 +24,34 @@ hook.install()
 MOD = "props.c02"
 NAME_ALPHA_TXT = "ADINOSadinos1_"
 NAME_ALPHA = ranges_of_pts([ord(c) for c in NAME_ALPHA_TXT])
-TOKENS = ["", "Item", "Property", "Children"]
+
+
+def _harvest_tokens():
+    """Name fragments the cycle-handling code itself compares schema names with: every string literal that is one
+    capitalised word in the CURRENT source of the cycle detection modules (re-read on every run), so that a name-dependent
+    special case shows up as a name worth trying."""
+    import ast
+    import os
+    import re
+
+    from common import SRC
+
+    found = []
+    for rel in ("core/parsing/unified_cycle_detection.py", "core/parsing/cycle_helpers.py"):
+        try:
+            tree = ast.parse(open(os.path.join(SRC, rel)).read())
+        except (OSError, SyntaxError):
+            continue
+        for node in ast.walk(tree):
+            if isinstance(node, ast.Constant) and isinstance(node.value, str) and re.fullmatch(r"[A-Z][a-zA-Z]{2,11}", node.value) and node.value not in found:
+                found.append(node.value)
+    return sorted(found)
+
+
+TOKENS = [""]
+for _t in ["Item", "Property", "Children"] + _harvest_tokens():
+    if _t not in TOKENS:
+        TOKENS.append(_t)
 
 
 def _I():
